@@ -246,6 +246,23 @@ def run(tier, mode):
                     return H.Exn(o['EXC'])
                 return o
             cases.append((H.req('ghistory', full), [canon_out(o, op) for o, op in zip(exp, ops + [probe])], {'history': ops, 'probe': probe}))
+    # a Config OBJECT handed to several descriptions: what an earlier one was parsed with (keywords) must not reach a later one through it
+    for kw in ({'parse_qq': True, 'qq_depth': 1}, {'parse_qq': True, 'clean_qq': True}, {'ocr_scrub': True}, {'parse_qq': True, 'break_halves': True, 'qq_depth_min': 1}):
+        for ctext in ('n,w', '', 's,e,parse_qq'):
+            cfg = pytrs.Config(ctext)
+            before = cfg.decompile_to_text()
+            probe_text = 'T155N-R98W Sec 1: Lots 1 - 3, S/2NE/4, NE'
+            want_d = H.call(lambda: pytrs.PLSSDesc(probe_text, config=pytrs.Config(ctext)))
+            first = H.call(lambda: pytrs.PLSSDesc('T154N-R97W Sec 14: NE/4', config=cfg).parse(**kw))
+            got_d = H.call(lambda: pytrs.PLSSDesc(probe_text, config=cfg))
+            n_or += 1
+            if isinstance(want_d, H.Exn) or isinstance(got_d, H.Exn) or isinstance(first, H.Exn):
+                continue
+            w_, g_ = [obs_tract(t) for t in want_d.tracts], [obs_tract(t) for t in got_d.tracts]
+            if normalise(w_) != normalise(g_) or cfg.decompile_to_text() != before:
+                fails.append({'kind': 'probe_depends_on_history', 'detail': {'history': [['parse', 'T154N-R97W Sec 14: NE/4', 'shared Config(%r)' % ctext, kw]], 'probe': ['PLSSDesc', probe_text, 'the same Config object'],
+                                                                           'master_config': None},
+                              'got': repr([x[:7] for x in g_])[:300] + ' config now ' + repr(cfg.decompile_to_text()), 'want': repr([x[:7] for x in w_])[:300] + ' config ' + repr(before), 'known_id': None})
     parts = {}
     if cases:
         got = H.run_model([c[0] for c in cases])
